@@ -195,7 +195,7 @@ var plainKeys = []string{"level", "message", "ts", "k8s_pod", "a", "b", "c", "d"
 	"service", "trace.id", "span_id", "user", "host", "env", "zone", "code", "n", "m", "p", "q", "r", "s", "t", "u", "v", "w",
 	"req", "resp", "tags", "labels", "meta", "ctx", "err"}
 var oddKeys = []string{"", " ", "we\"ird", "back\\slash", "tab\there", "new\nline", "ключ", "日本語", "emoji😀", "with space",
-	"a/b", "a*b", "x:y", "p|q", "c,d", "fields", "except", "é", "\u0001ctl", "q'uote", "UPPER", "ümlaut", "-dash", "a-b"}
+	"a/b", "a*b", "x:y", "p|q", "c,d", "fields", "except", "é", "\u0001ctl", "q'uote", "UPPER", "upper", "Level", "MESSAGE", "a.b", "a", "ümlaut", "-dash", "a-b"}
 
 func pickKey(r *rng.R) string {
 	switch r.Intn(10) {
